@@ -11,11 +11,20 @@
    B2 `load_index_line_rejects*`  a line without exactly five whitespace-separated fields, or with a non-integer
                                   numeric field, is a `ValueError`; `load_index_line_accepts_iff` is the converse;
                                   one bad line fails the whole load
-   B3 `warm_eq_cold_assembly`     see section B3
+   B3 `cold_assembly_wf`, `warm_eq_cold_assembly`, `warm_eq_cold_index`
+                                  the assembly / index `index_fasta_file` builds (C04 `indexFasta_spec`) satisfies C05's
+                                  `WFAgp`, is already in reader form (`canonAssembly a = a`), so format → parse gives it
+                                  back EXACTLY; hypotheses `ColdOk` (each is needed: see the counterexamples) and
+                                  `'\n' ∉ path` for the header line "Built from FASTA file '<path>'"
+   FINDINGS (examples at the end): a record named `#…`, a record without residues, a name containing one of the
+   bytes 0x1C–0x1F each make the warm start differ from the cold one (or fail).
 -/
 import AgpTpf.Proofs.CliFai
+import AgpTpf.Proofs.CliWarm
+import AgpTpf.Properties.C04
+import AgpTpf.Properties.C05
 namespace AgpTpf.C17
-open AgpTpf AgpTpf.CliFai
+open AgpTpf AgpTpf.CliFai AgpTpf.CliWarm AgpTpf.C04 AgpTpf.C05
 
 /-! ## B1  `.fai` round trip -/
 
@@ -109,6 +118,124 @@ example : loadIndexLine "\n".toList = .error .value := by
 example : loadIndexLine "  a 6 4 +4\t1_0".toList = .ok (['a'], ⟨6, 4, 4, 10⟩) := by
   rw [loadIndexLine_fuel 16 _ (by decide)]; rfl
 example : loadIndex ["a\t6\t4\t4\t6\n".toList, "b\t4\n".toList] = .error .value := by
+  rw [loadIndex_fuel 16 _ (by decide)]; rfl
+
+/-! ## B3  the assembly and index built by `index_fasta_file` survive their files
+
+  `ColdOk recs` (CliWarm): every record well-formed (`Rec.WF`, C04: name token non-empty ASCII, no `bytes.isspace` byte),
+  names pairwise different, **every record has ≥ 1 residue**, **no name starts with `#`**.
+  `builtFrom path` = `"Built from FASTA file '" ++ path ++ "'"`, the header line of the cold assembly. -/
+
+/-- header-line condition: `HeaderOk` (C05) holds for the "Built from …" line iff the path has no newline
+    (it starts with `B`, so the `[#\s]+(.+)` header regex gives it back unchanged) -/
+theorem built_from_header_ok (path : Str) (h : '\n' ∉ path) : HeaderOk (builtFrom path) := builtFrom_ok path h
+
+/-- the cold assembly: (i) `WFAgp` — no empty scaffold, consecutive names different, names without tab / leading `#`,
+    rows: gap type `scaffold`, fragments untagged, strand 1, start ≤ end; (ii) no newline anywhere; (iii) its object
+    ids are already `0,1,2,…` in file order, i.e. it is in reader form. -/
+theorem cold_assembly_wf (path : Str) (recs : List Rec) (hp : '\n' ∉ path) (hok : ColdOk recs) :
+    let cold : Assembly := { header := [builtFrom path], scaffolds := (recs.foldl addRec {}).scaffolds }
+    WFAgp cold ∧ NoNewlines cold ∧ canonAssembly cold = cold := by
+  intro cold
+  have e : cold = { header := [builtFrom path], scaffolds := coldScaffolds 0 recs } := by
+    show ({ header := _, scaffolds := _ } : Assembly) = _
+    rw [cold_eq]
+  rw [e]
+  have hh : ∀ h ∈ [builtFrom path], HeaderOk h := by
+    intro h hm; rw [List.mem_singleton] at hm; subst hm; exact builtFrom_ok path hp
+  obtain ⟨h1, h2⟩ := cold_WFAgp [builtFrom path] recs hh hok
+  exact ⟨h1, h2, cold_canon _ recs⟩
+
+/-- **B3** cold = warm for the assembly, every buffer size: indexing the FASTA file succeeds, writing the resulting
+    assembly as AGP succeeds, the written text splits into the written lines, and `parse_agp` of it returns the SAME
+    assembly (header line, scaffolds, rows, coordinates, strands, gap types, and even the object ids). -/
+theorem warm_eq_cold_assembly (bs : Int) (path : Str) (recs : List Rec) (hne : recs ≠ []) (hp : '\n' ∉ path)
+    (hok : ColdOk recs) :
+    ∃ st lines, indexFasta (bLines (fileOf recs)) bs = .ok st ∧
+      formatAgp { header := [builtFrom path], scaffolds := st.scaffolds } = .ok lines ∧
+      pyLines lines.flatten = lines ∧
+      parseAgp (pyLines lines.flatten) = .ok { header := [builtFrom path], scaffolds := st.scaffolds } := by
+  obtain ⟨st, hst, _, hsc⟩ := indexFasta_spec bs recs hne hok.wf hok.nodup
+  obtain ⟨hwf, hnl, hcanon⟩ := cold_assembly_wf path recs hp hok
+  obtain ⟨lines, h1, h2, h3⟩ := agp_roundtrip_text' _ hwf hnl
+  refine ⟨st, lines, hst, ?_, h2, ?_⟩
+  · rw [hsc]; exact h1
+  · rw [hsc, h3, hcanon]
+
+/-- cold = warm for the index: the `.fai` written for the built index loads back as that index, provided no name
+    contains a `str.isspace` character — for the ASCII names of `Rec.WF` that means: none of the bytes 0x1C–0x1F
+    (`rec_name_space`), which `bytes.split()` keeps inside a name but `str.split()` splits at. -/
+theorem warm_eq_cold_index (bs : Int) (recs : List Rec) (hne : recs ≠ []) (hwf : ∀ r ∈ recs, r.WF)
+    (hnd : (recs.map Rec.name).Nodup) (hsp : ∀ r ∈ recs, ∀ c ∈ r.name, isSpace c = false) :
+    ∃ st, indexFasta (bLines (fileOf recs)) bs = .ok st ∧ loadIndex (st.idx.map faiRow) = .ok st.idx := by
+  obtain ⟨st, hst, hidx, _⟩ := indexFasta_spec bs recs hne hwf hnd
+  refine ⟨st, hst, ?_⟩
+  have hkeys : st.idx.map Prod.fst = recs.map Rec.name := by
+    rw [hidx]; have := foldl_addRec_keys recs {}; simpa using this
+  apply load_index_roundtrip
+  · intro e he
+    have : e.1 ∈ recs.map Rec.name := by rw [← hkeys]; exact List.mem_map.2 ⟨e, he, rfl⟩
+    obtain ⟨r, hr, hre⟩ := List.mem_map.1 this
+    rw [← hre]
+    exact ⟨(rec_name r (hwf r hr)).1, hsp r hr⟩
+  · rw [hkeys]; exact hnd
+
+/-- names of well-formed records: non-empty ASCII, no tab, no newline; the only `str.isspace` characters they can
+    contain are U+001C … U+001F -/
+theorem rec_name_space (r : Rec) (h : r.WF) :
+    r.name ≠ [] ∧ '\t' ∉ r.name ∧ '\n' ∉ r.name ∧
+      ∀ c ∈ r.name, c.toNat < 128 ∧ (isSpace c = true → 28 ≤ c.toNat ∧ c.toNat ≤ 31) := rec_name r h
+
+/-- non-vacuity: `>a\nACGTNN\nAC\n>b x\r\nnnAC\r\n` -/
+def recA : Rec := { hdr := [97], le := [10], lines := [[65, 67, 71, 84, 78, 78], [65, 67]] }
+def recB : Rec := { hdr := [98, 32, 120], le := [13, 10], lines := [[110, 110, 65, 67]] }
+theorem coldOk_demo : ColdOk [recA, recB] := by
+  refine ⟨?_, by decide, ?_, ?_⟩
+  · intro r hr
+    simp only [List.mem_cons, List.not_mem_nil, or_false] at hr
+    rcases hr with rfl | rfl
+    · exact ⟨Or.inl ⟨rfl, by decide⟩, by decide, by decide, by decide, by decide⟩
+    · exact ⟨Or.inr rfl, by decide, by decide, by decide, by decide⟩
+  · intro r hr
+    simp only [List.mem_cons, List.not_mem_nil, or_false] at hr
+    rcases hr with rfl | rfl <;> decide
+  · intro r hr
+    simp only [List.mem_cons, List.not_mem_nil, or_false] at hr
+    rcases hr with rfl | rfl <;> decide
+example : ([recA, recB].foldl addRec {}).scaffolds =
+    [{ name := ['a'], rows := [fragRow 0 ['a'] 0 4, gapRow 2, fragRow 1 ['a'] 6 8] },
+     { name := ['b'], rows := [gapRow 2, fragRow 2 ['b'] 2 4] }] := by rfl
+example : ∀ r ∈ [recA, recB], ∀ c ∈ r.name, isSpace c = false := by decide
+
+/-! ### findings: each extra hypothesis of `ColdOk` is needed -/
+
+def coldOf (recs : List Rec) : Assembly := { header := [builtFrom "x.fa".toList], scaffolds := (recs.foldl addRec {}).scaffolds }
+def warmOf (recs : List Rec) : R Assembly := formatAgp (coldOf recs) >>= parseAgp
+
+/-- FINDING 1: a record named `#x` (`>#x\nAC\n`).  Its AGP line starts with `#`, so `parse_agp` reads it as a header
+    comment: the warm assembly has NO scaffold and a second header line, the cold one has the scaffold `#x`. -/
+def recHash : Rec := { hdr := [35, 120], le := [10], lines := [[65, 67]] }
+example : recHash.WF := ⟨Or.inl ⟨rfl, by decide⟩, by decide, by decide, by decide, by decide⟩
+example : (coldOf [recHash]).scaffolds = [{ name := "#x".toList, rows := [fragRow 0 "#x".toList 0 2] }] ∧
+    (warmOf [recHash]).map (fun a => (a.header.length, a.scaffolds)) = .ok (2, []) := ⟨by rfl, by rfl⟩
+
+/-- FINDING 2: a record without residues (`>e\n>a\nAC\n`): the cold assembly has the empty scaffold `e`, its AGP has no
+    line for it, the warm assembly lacks it (the `.fai` still lists `e` with length 0). -/
+def recEmpty : Rec := { hdr := [101], le := [10], lines := [] }
+def recAC : Rec := { hdr := [97], le := [10], lines := [[65, 67]] }
+example : recEmpty.WF := ⟨Or.inl ⟨rfl, by decide⟩, by decide, by decide, by decide, by decide⟩
+example : (coldOf [recEmpty, recAC]).scaffolds.map (·.name) = [['e'], ['a']] ∧
+    (warmOf [recEmpty, recAC]).map (fun a => a.scaffolds.map (·.name)) = .ok [['a']] ∧
+    ([recEmpty, recAC].foldl addRec {}).idx.map Prod.fst = [['e'], ['a']] := ⟨by rfl, by rfl, by rfl⟩
+
+/-- FINDING 3: a name containing U+001C (`>a\x1cb\nAC\n`).  `bytes.split()` keeps the byte inside the name (it is not
+    `bytes.isspace`), the `.fai` row is written with it, and `str.split()` in `load_index` splits there: six fields,
+    `ValueError` on every warm start. -/
+def recFs : Rec := { hdr := [97, 28, 98], le := [10], lines := [[65, 67]] }
+example : recFs.WF := ⟨Or.inl ⟨rfl, by decide⟩, by decide, by decide, by decide, by decide⟩
+example : ([recFs].foldl addRec {}).idx = [(['a', Char.ofNat 28, 'b'], ⟨2, 5, 2, 3⟩)] ∧
+    loadIndex (([recFs].foldl addRec {}).idx.map faiRow) = .error .value := by
+  refine ⟨by rfl, ?_⟩
   rw [loadIndex_fuel 16 _ (by decide)]; rfl
 
 end AgpTpf.C17
